@@ -4,6 +4,7 @@ import (
 	"bytes"
 	"context"
 	"encoding/json"
+	"errors"
 	"flag"
 	"fmt"
 	"io"
@@ -282,6 +283,7 @@ func runScenario(sc scen, rng *rand.Rand) []rec.Event {
 		var got []byte
 		var mu sync.Mutex
 		readDone := make(chan struct{})
+		stopRead := make(chan struct{})
 		var readPanic string
 		go func() {
 			defer close(readDone)
@@ -301,7 +303,20 @@ func runScenario(sc scen, rng *rand.Rand) []rec.Event {
 					got = append(got, buf[:n]...)
 					l := len(got)
 					mu.Unlock()
-					if err != nil || l >= len(want)+64 {
+					if l >= len(want)+64 {
+						return
+					}
+					if err != nil {
+						// a read deadline that passes while the TNC is still sending (slow segmentation, loaded machine) is
+						// not the end of the stream: keep reading until the driver says so
+						select {
+						case <-stopRead:
+							return
+						default:
+						}
+						if errors.Is(err, context.DeadlineExceeded) || os.IsTimeout(err) {
+							continue
+						}
 						return
 					}
 				}
@@ -342,6 +357,7 @@ func runScenario(sc scen, rng *rand.Rand) []rec.Event {
 		if mech {
 			log.Print("MARK end")
 		}
+		close(stopRead)
 		guard(func() { conn.Close() })
 		closed = true
 		select {
@@ -666,7 +682,12 @@ func Main(args []string) int {
 	mk(func(s *scen) { s.Kind = "accept"; s.Frames = []int{12, 120}; s.Foreign = true; s.Segs = []int{30, 6} })
 	mk(func(s *scen) { s.Kind = "accept"; s.Port = 1; s.Frames = []int{77} })
 	mk(func(s *scen) { s.Kind = "accept"; s.Frames = []int{12, 34}; s.Writes = []int{10, 200} })
-	mk(func(s *scen) { s.Kind = "accept"; s.Frames = []int{12, 34}; s.Writes = []int{10, 200}; s.Reverse = true })
+	mk(func(s *scen) {
+		s.Kind = "accept"
+		s.Frames = []int{12, 34}
+		s.Writes = []int{10, 200}
+		s.Reverse = true
+	})
 	mk(func(s *scen) { s.Kind = "outbound"; s.Writes = []int{10, 200}; s.Reverse = true })
 	mk(func(s *scen) { s.Kind = "inbound"; s.Frames = []int{4, 4, 5}; s.Redial = true })
 	mk(func(s *scen) { s.Kind = "inbound"; s.Frames = []int{40, 30, 20, 10}; s.Redial = true; s.ReadBuf = 16 })
